@@ -9,22 +9,45 @@ from . import ops
 LEVEL = "proof"
 
 
-def find_bound_check(db, f):
+def find_bound_check(db, f, count_only=False):
     """returns {var, t, A}: the index variable and the exact set of its values that pass the first abort check after it is formed
     (helpers / lambdas inlined and every form of abort check recognised: sa/astwalk.py)"""
     from ..astwalk import Walker, Hooks, Unhandled
     env = {}
     found = {}
 
+    byvalue = set()
+    found["fetches"] = 0
+
+    def fresh_mention(e, depth=0):
+        """does e reach the index parameter through references / helper reference parameters only (i.e. is it a new READ of the
+        caller's index object, not a use of a value read earlier)?"""
+        if isinstance(e, dict):
+            if e.get("k") == "ref":
+                if e.get("d") == f["params"][0]["d"]:
+                    return True
+                if depth < 6 and e.get("d") in env and e.get("d") not in byvalue and e.get("dk") in ("param", "local"):
+                    return fresh_mention(env[e["d"]], depth + 1)
+                return False
+            return any(fresh_mention(v, depth) for v in e.values() if isinstance(v, (dict, list)))
+        if isinstance(e, list):
+            return any(fresh_mention(v, depth) for v in e)
+        return False
+
     class H(Hooks):
         def decl(self, v):
+            t_ = v.get("t") or {}
+            if "init" in v and t_.get("k") in ("int", "bool", "enum") and not t_.get("ref"):
+                if fresh_mention(v["init"]):
+                    found["fetches"] += 1
+                byvalue.add(v["d"])
             if "init" in v and "var" not in found and (v["t"] or {}).get("k") in ("int", "bool", "enum") and ops.mentions_param_env(v["init"], f["params"][0]["d"], env):
                 # the index variable: initialised from the (unwrapped) rhs parameter
                 found["var"] = v["d"]
                 found["t"] = v["t"]
 
         def check(self, cond, positive, loc):
-            if "var" in found and "A" not in found:
+            if "var" in found and "A" not in found and not count_only:
                 dom = [trange(found["t"])]
                 env2 = {k: v for k, v in env.items() if k != found["var"]}
                 T = Evaluator({found["var"]}, env2, db=db).sat(cond, dom)
@@ -80,7 +103,18 @@ def run(rep, tier):
             try:
                 fd = find_bound_check(db, f)
             except IvInconclusive as ex:
+                fd2 = None
+                try:
+                    fd2 = find_bound_check(db, f, count_only=True)
+                except IvInconclusive:
+                    pass
+                if fd2 and fd2.get("fetches", 0) > 1 and "tainted_volatile" in ((f["params"][0]["t"] or {}).get("c") or ""):
+                    rep.violation("R-C17-bound", site(f) + " [double fetch]", "the index, which lives in sandbox memory, is read %d times: the value that is bounds-checked need not be the value that selects the element" % fd2["fetches"], f["loc"], inst)
+                    continue
                 rep.inconclusive("R-C17-bound", site(f), str(ex), inst)
+                continue
+            if fd.get("fetches", 0) > 1 and "tainted_volatile" in ((f["params"][0]["t"] or {}).get("c") or ""):
+                rep.violation("R-C17-bound", site(f) + " [double fetch]", "the index, which lives in sandbox memory, is read %d times: the value that is bounds-checked need not be the value that selects the element" % fd["fetches"], f["loc"], inst)
                 continue
             if "A" not in fd:
                 rep.violation("R-C17-bound", site(f) + " [array]", "no abort check on the index precedes the element access", f["loc"], inst)
